@@ -19,6 +19,8 @@ CONSTANTS
   W_AppendAlwaysTruncates = FALSE
   W_HeartbeatCommitUnbounded = TRUE
   W_QuorumMinusOne = FALSE
+  PreVote = FALSE
+  W_PreVoteRespCountsAsVote = FALSE
 INIT Init
 NEXT Next
 CONSTRAINT NetBound
